@@ -107,6 +107,16 @@ static std::string scenario_contact(int ncells) {
     return "ok";
 }
 
+// ------------------------------------------------------------------------------------------------ (g) a division inside a real solver iteration (ids come from the solver's own counter)
+static std::string scenario_solver_division(int ready_mask) {
+    simucell3d_verif::g_base_seed = 999; simucell3d_verif::reset_rng_counters(); srand(1);
+    std::vector<sw::CellSpec> cs; for (int i = 0; i < 3; i++) { auto ty = sc::make_cell_type(0, 3); ty->bulk_modulus_ = 5; for (auto& f : ty->face_types_) f.surface_tension_ = 0.3; ty->avg_division_vol_ = (ready_mask >> i & 1) ? 1.0 : std::numeric_limits<double>::infinity(); ty->std_division_vol_ = 0;
+        cs.push_back({sc::translated(sc::scaled(sc::transformed(sc::icosphere(1), sc::matmul(sc::rot_x_51213(), sc::rot_z_345()), {0, 0, 0}), 1.3, 1.0, 0.8), 4.0 * i, 0.3 * i, 0), ty}); }
+    global_simulation_parameters p = sc::make_sim_params(sw::scratch_root() + "/c15g", 0.25); p.time_step_ = 1e-3; p.sampling_period_ = 1e9; p.simulation_duration_ = 1e9;
+    std::string d; { sw::World W(cs, p); g_cur_solver = W.s.get(); W.s->run_iteration(); g_cur_solver = nullptr; d = describe(W.cells()); }
+    return d;
+}
+
 // ------------------------------------------------------------------------------------------------ (d) shared node: atomic force accumulation + locked coupling
 static std::string scenario_shared_node(int team) {
     static node shared(0., 0., 0., 0u); shared.force_.reset();
@@ -148,6 +158,8 @@ static void explore(Result& R) {
     for (int nc : {2, 3}) for (int T : {2, 3}) { if (T > nc) continue; subs.push_back({"contact phase (model " + std::to_string(CONTACT_MODEL_INDEX) + "), " + std::to_string(nc) + " interpenetrating cells, T=" + std::to_string(T), T, th ? 3 : 2, [nc] { return scenario_contact(nc); }, [](const std::string& o) { return o == "ok" ? std::string() : o; }, nullptr, "@serial"}); }
     if (CONTACT_MODEL_INDEX != 1) { std::vector<Sub> only; for (auto& x : subs) if (x.name.rfind("contact phase", 0) == 0) only.push_back(x); subs = only; }   // the other contact-model builds run the contact sub-check only
     else {
+    // (g)
+    for (int mask : {1, 5}) subs.push_back({"solver-iteration-with-division ready=" + std::to_string(mask) + " T=2", 2, 1, [mask] { return scenario_solver_division(mask); }, nullptr, hash_world, "@serial"});
     // (e)
     for (int T : {2, 3}) subs.push_back({"mesh_writer::write, three cells with free slots, T=" + std::to_string(T), T, th ? 2 : 1, [] { return scenario_write(3); }, nullptr, nullptr, "@serial"});
     // (b)
@@ -162,13 +174,15 @@ static void explore(Result& R) {
     long total_switch = 0, total_exec = 0, total_points = 0, total_pruned = 0; long unit = 0;
     for (Sub& s : subs) { if (!R.args.mine(unit++)) continue; if (R.out_of_time(0.9)) { R.cap("deadline before sub-check " + s.name); break; }
         progress("sub=" + s.name + "\n");
-        if (s.reference == "@serial") { vomp::set_mode(vomp::MODE_SERIAL, 1); s.reference = s.scenario(); std::string again = s.scenario(); if (again != s.reference) { R.internal_error = "sequential reference of '" + s.name + "' is not reproducible"; return; } }
+        if (s.reference == "@serial") { vomp::set_mode(vomp::MODE_SERIAL, 1); s.reference = s.scenario(); std::string again = s.scenario(); if (again != s.reference) { R.internal_error = "sequential reference of '" + s.name + "' is not reproducible"; return; }
+            if (s.reference.find("DUPLICATE-ID") != std::string::npos || s.reference.find("BAD-INDEX") != std::string::npos) { R.violation(std::string(s.reference.find("DUPLICATE-ID") != std::string::npos ? "two-cells-carry-the-same-id" : "position-index-differs-from-list-position") + "|" + s.name.substr(0, s.name.find(' ')), s.name + ", single-threaded run: " + s.reference.substr(0, 160), "sub=" + s.name + "\nteam=1\nschedule=\n"); continue; } }
         for (int b = 0; b <= s.bound; b++) {      // iterate the bound: 0, 1, 2, ...
             vomp::Explorer E; E.team = s.team; E.bound = b; E.scenario = s.scenario; E.deadline_s = std::max(5.0, (R.args.deadline * 0.9 - R.elapsed()) / 2); vomp::set_state_hash(s.hash);
             std::string first_err; std::vector<int> first_sched;
             E.judge = [&](const vomp::Execution& x) { std::string e; if (x.deadlock) e = "deadlock: no enabled thread while threads are unfinished"; else if (x.diverged) e = "INTERNAL schedule diverged while replaying a prefix"; else if (x.overflow || x.horizon) e = "INTERNAL trace overflow / horizon";
                 else if (!x.races.empty()) { std::string all = x.races; for (size_t p2 = 0; p2 < all.size();) { size_t q = all.find('\n', p2); if (q == std::string::npos) q = all.size(); if (q > p2) { std::string pair = all.substr(p2, std::min<size_t>(q - p2, 240)); R.tables["lockset_race_pairs"][pair]++;
                         R.violation("lockset-race|" + pair, s.name + ", schedule " + vomp::Explorer::schedule_text(x.choices()) + ": two threads of one team access the same bytes between two team-wide synchronisations, at least one writes, not both atomically, no lock in common: " + pair, "sub=" + s.name + "\nteam=" + std::to_string(s.team) + "\nschedule=" + vomp::Explorer::schedule_text(x.choices()) + "\n"); } p2 = q + 1; } }
+                else if (x.outcome.find("DUPLICATE-ID") != std::string::npos) e = "two-cells-carry-the-same-id: " + x.outcome.substr(0, 120); else if (x.outcome.find("BAD-INDEX") != std::string::npos) e = "position-index-differs-from-list-position: " + x.outcome.substr(0, 120);
                 else if (s.judge) e = s.judge(x.outcome); else if (functional && x.outcome != s.reference) e = "result-differs-from-the-single-threaded-run: '" + x.outcome.substr(0, 200) + "' vs '" + s.reference.substr(0, 200) + "'";
                 if (!e.empty() && first_err.empty()) { first_err = e; first_sched = x.choices(); } };
             E.explore({});
